@@ -21,6 +21,7 @@ import (
 	"math"
 	"os"
 	"reflect"
+	"runtime"
 	"sort"
 	"strings"
 	"sync"
@@ -205,6 +206,8 @@ type lcScenario struct {
 	CauseCtx   bool   `json:"cancel_with_cause"`         // the context is a WithCancelCause context cancelled with a custom cause
 	OnDone     bool   `json:"cancel_when_wait_begins"`   // the context is cancelled at the moment Run asks for ctx.Done(), i.e. when the retry wait begins
 	ErrBoth    bool   `json:"failing_exec_returns_error_result_and_error"` // func kind, result-style exec: a failing attempt returns NewErrorResult(e), e
+	PostPanic  bool   `json:"post_panics"`                // the post callback panics
+	WaitFirst  bool   `json:"wait_configured_before_retries"` // WithWait is applied before WithMaxRetries
 }
 
 type lcEvent struct {
@@ -285,6 +288,9 @@ func (r *lcRec) doPost(s *SharedStore, p, x any) (Action, error) {
 	defer r.leave(i)
 	if r.sc.PostErr {
 		return "", r.postErr
+	}
+	if r.sc.PostPanic {
+		panic("post callback panics")
 	}
 	return Action(r.sc.PostAction), nil
 }
@@ -407,6 +413,14 @@ func lifecycleScenarios() []lcScenario {
 		f.InFlow = true
 		extra = append(extra, f)
 	}
+	for _, kind := range []string{"struct", "func"} {
+		for _, n := range []int{2, 3} {
+			extra = append(extra, lcScenario{Kind: kind, N: n, WaitMs: 15, ExecFail: []bool{true, false}, CancelAt: -1, WaitFirst: true},
+				lcScenario{Kind: kind, N: n, WaitMs: 15, ExecFail: []bool{true, true, true}, Fallback: true, CancelAt: -1, WaitFirst: true})
+		}
+		extra = append(extra, lcScenario{Kind: kind, N: 1, ExecFail: []bool{false}, CancelAt: -1, PostPanic: true},
+			lcScenario{Kind: kind, N: 1, ExecFail: []bool{false}, CancelAt: -1, PostPanic: true, InFlow: true})
+	}
 	return append(out, extra...)
 }
 
@@ -439,6 +453,9 @@ func runLifecycle(sc lcScenario, prop string) string {
 		store := NewSharedStore()
 		var node Node
 		opts := []NodeOption{WithMaxRetries(sc.N), WithWait(time.Duration(sc.WaitMs) * time.Millisecond)}
+		if sc.WaitFirst {
+			opts[0], opts[1] = opts[1], opts[0]
+		}
 		retryable := true
 		switch sc.Kind {
 		case "struct":
@@ -457,6 +474,9 @@ func runLifecycle(sc lcScenario, prop string) string {
 			}
 		case "func":
 			b := NewNode().WithMaxRetries(sc.N).WithWait(time.Duration(sc.WaitMs) * time.Millisecond)
+			if sc.WaitFirst {
+				b = NewNode().WithWait(time.Duration(sc.WaitMs) * time.Millisecond).WithMaxRetries(sc.N)
+			}
 			if sc.Styles&1 != 0 {
 				b.WithPrepFuncAny(func(c context.Context, s *SharedStore) (any, error) { return r.doPrep(s) })
 			} else {
@@ -505,6 +525,26 @@ func runLifecycle(sc lcScenario, prop string) string {
 		}
 		var act Action
 		var err error
+		if sc.PostPanic {
+			// a panicking callback is no success: on the original code the panic leaves Run
+			returned := false
+			func() {
+				defer func() { recover() }()
+				if sc.InFlow {
+					err = NewFlow(node).Run(ctx, store)
+					if err == nil {
+						act = "flow-ok"
+					}
+				} else {
+					act, err = Run(ctx, node, store)
+				}
+				returned = true
+			}()
+			if returned && err == nil && wants(prop, "C01", "C04", "C18") {
+				return fmt.Sprintf("C18/C04: the post callback panicked, yet the run returned (%q, nil): a success with action %q", act, act)
+			}
+			return ""
+		}
 		if sc.InFlow {
 			fl := NewFlow(node)
 			err = fl.Run(ctx, store)
@@ -811,7 +851,8 @@ type flScenario struct {
 	FailAt   int        `json:"fail_at"`  // visit index whose exec fails (-1 none)
 	CancelAt int        `json:"cancel_at"`
 	Runs     int        `json:"runs"`
-	Special  string     `json:"special,omitempty"` // rewire-inside-node | nested-empty-batch
+	Special  string     `json:"special,omitempty"` // rewire-inside-node | nested-empty-batch | cancel-then-batch | inner-connected-after-wiring | node-in-two-single-node-flows
+	CtxLikeErr bool     `json:"failing_node_error_wraps_deadline_exceeded,omitempty"` // the run's own context stays alive
 }
 
 type flNode struct {
@@ -902,7 +943,15 @@ func flowScenarios() []flScenario {
 		d.Nested = 2
 		d.FailAt = k
 		out = append(out, d)
+		e := b
+		e.CtxLikeErr = true
+		out = append(out, e)
+		g := d
+		g.CtxLikeErr = true
+		out = append(out, g)
 	}
+	out = append(out, flScenario{Special: "inner-connected-after-wiring", Nested: -1, FailAt: -1, CancelAt: -1, Runs: 1},
+		flScenario{Special: "node-in-two-single-node-flows", Nested: -1, FailAt: -1, CancelAt: -1, Runs: 1})
 	return out
 }
 
@@ -1015,6 +1064,53 @@ func cancelThenBatch() string {
 	})
 }
 
+func flLogNode(log *[]string, name string, act Action) Node {
+	return NewNode().WithExecFuncAny(func(ctx context.Context, p any) (any, error) { *log = append(*log, name); return nil, nil }).
+		WithPostFuncAny(func(ctx context.Context, s *SharedStore, p, e any) (Action, error) { return act, nil })
+}
+
+// innerConnectedAfterWiring: the inner flow is wired into its parent while it still has no connection and gets
+// its own connections afterwards; it must still run its whole path and present its last node's action.
+func innerConnectedAfterWiring() string {
+	return guard(func() string {
+		var log []string
+		s, n1, n2, tail := flLogNode(&log, "s", "next"), flLogNode(&log, "n1", "go"), flLogNode(&log, "n2", "end"), flLogNode(&log, "tail", "x")
+		inner := NewFlow(n1)
+		outer := NewFlow(s)
+		outer.Connect(s, "next", inner)
+		outer.Connect(inner, "end", tail)
+		inner.Connect(n1, "go", n2)
+		if err := outer.Run(context.Background(), NewSharedStore()); err != nil {
+			return "C10: " + err.Error()
+		}
+		if got := strings.Join(log, " "); got != "s n1 n2 tail" {
+			return fmt.Sprintf("C10: an inner flow that was connected after being wired into its parent: visited %q, the flattened machine visits \"s n1 n2 tail\"", got)
+		}
+		return ""
+	})
+}
+
+// nodeInTwoSingleNodeFlows: the same node is used through two different single-node flows, each with its own continuation.
+func nodeInTwoSingleNodeFlows() string {
+	return guard(func() string {
+		var log []string
+		pick, work, a1, a2 := flLogNode(&log, "pick", "first"), flLogNode(&log, "work", "done"), flLogNode(&log, "afterFirst", "second"), flLogNode(&log, "afterSecond", "x")
+		w1, w2 := NewFlow(work), NewFlow(work)
+		outer := NewFlow(pick)
+		outer.Connect(pick, "first", w1)
+		outer.Connect(w1, "done", a1)
+		outer.Connect(a1, "second", w2)
+		outer.Connect(w2, "done", a2)
+		if err := outer.Run(context.Background(), NewSharedStore()); err != nil {
+			return "C10: " + err.Error()
+		}
+		if got := strings.Join(log, " "); got != "pick work afterFirst work afterSecond" {
+			return fmt.Sprintf("C10/C03: one node reused through two single-node flows with different continuations: visited %q, want \"pick work afterFirst work afterSecond\"", got)
+		}
+		return ""
+	})
+}
+
 func runFlowScenario(sc flScenario, prop string) string {
 	if sc.Nested == -9 {
 		return nilEndedInnerFlow()
@@ -1026,6 +1122,10 @@ func runFlowScenario(sc flScenario, prop string) string {
 		return nestedEmptyBatch()
 	case "cancel-then-batch":
 		return cancelThenBatch()
+	case "inner-connected-after-wiring":
+		return innerConnectedAfterWiring()
+	case "node-in-two-single-node-flows":
+		return nodeInTwoSingleNodeFlows()
 	}
 	return guard(func() string {
 		ctx, cancel := context.WithCancel(context.Background())
@@ -1034,6 +1134,9 @@ func runFlowScenario(sc flScenario, prop string) string {
 		var stores []*SharedStore
 		total := 0
 		boom := errors.New("node-failure")
+		if sc.CtxLikeErr {
+			boom = fmt.Errorf("node-level timeout: %w", context.DeadlineExceeded)
+		}
 		nodes := make([]Node, sc.Nodes)
 		raw := make([]*flNode, sc.Nodes)
 		for i := range nodes {
@@ -1143,6 +1246,10 @@ type btScenario struct {
 	CancelPrep  bool   `json:"cancel_inside_prep"`
 	CtxWrapErr  bool   `json:"item_errors_wrap_deadline_exceeded"` // the items' own errors wrap context.DeadlineExceeded (the batch context stays alive)
 	NilItem1    int    `json:"nil_valued_success_item_plus_1"`     // 1-based index of an item whose exec succeeds with a nil value (0 none)
+	ErrItem1    int    `json:"error_result_item_from_prep_plus_1"` // 1-based index of an item that prep hands over as an error Result (0 none); exec recovers it
+	ErrBoth     bool   `json:"failing_exec_returns_error_result_and_error"`
+	CauseCtx    bool   `json:"cancel_with_cause"`
+	MaxProcs    int    `json:"gomaxprocs"` // > 0: GOMAXPROCS is lowered to this for the run; every exec blocks until `concurrency` executions are in flight
 	WaitMs      int    `json:"wait_ms"`
 	SlowMs      int    `json:"slow_failing_attempt_ms"`
 	Gate        string `json:"gate"` // "" | max-first | min-first: every exec attempt parks until a controller releases it; the controller releases the in-flight attempt with the highest / lowest item index once no new attempt arrives
@@ -1207,6 +1314,23 @@ func batchScenarios() []btScenario {
 			out = append(out, btScenario{Items: 3, Concurrency: c, Stop: stop, Retries: 1, Fail: []int{0, 9, 0}, Payload: "results", CancelIn: -1, ErrResult: -1, NilItem1: 1, Gate: map[bool]string{true: "min-first"}[c > 0]})
 		}
 	}
+	for _, c := range []int{0, 1, 2} {
+		// typed slice outside ToSlice's fast paths, with zero-valued elements
+		out = append(out, btScenario{Items: 5, Concurrency: c, Retries: 1, Fail: make([]int, 5), Payload: "int64s-with-zeros", CancelIn: -1, ErrResult: -1})
+		// an item that is itself an error Result still gets its attempts and its fallback
+		out = append(out, btScenario{Items: 4, Concurrency: c, Retries: 2, Fail: []int{0, 0, 1, 0}, Payload: "results", CancelIn: -1, ErrResult: -1, ErrItem1: 3},
+			btScenario{Items: 4, Concurrency: c, Retries: 2, Fail: []int{0, 0, 9, 0}, Fallback: true, Payload: "results", CancelIn: -1, ErrResult: -1, ErrItem1: 3})
+		// failure reported through both return values
+		for _, stop := range []bool{false, true} {
+			out = append(out, btScenario{Items: 4, Concurrency: c, Stop: stop, Retries: 1, Fail: []int{0, 9, 0, 0}, Payload: "results", CancelIn: -1, ErrResult: -1, ErrBoth: true})
+		}
+		// cancellation with a cause, from inside an item
+		for _, stop := range []bool{false, true} {
+			out = append(out, btScenario{Items: 3, Concurrency: c, Stop: stop, Retries: 1, Fail: make([]int, 3), Payload: "results", CancelIn: 1, ErrResult: -1, CauseCtx: true})
+		}
+	}
+	out = append(out, btScenario{Items: 3, Concurrency: 3, Retries: 1, Fail: make([]int, 3), Payload: "results", CancelIn: -1, ErrResult: -1, MaxProcs: 2},
+		btScenario{Items: 9, Concurrency: 4, Retries: 1, Fail: make([]int, 9), Payload: "results", CancelIn: -1, ErrResult: -1, MaxProcs: 2})
 	out = append(out, btScenario{Items: 0, Payload: "nil", CancelIn: -1, ErrResult: -1, Retries: 1}, btScenario{Items: 1, Payload: "single", CancelIn: -1, ErrResult: -1, Retries: 1, Fail: []int{0}},
 		btScenario{Items: 0, Payload: "results", CancelIn: -1, ErrResult: -1, Retries: 1, PostAction: "custom"})
 	return out
@@ -1216,6 +1340,16 @@ func runBatchScenario(sc btScenario, prop string) string {
 	return guard(func() string {
 		ctx, cancel := context.WithCancel(context.Background())
 		defer cancel()
+		if sc.CauseCtx {
+			cctx, ccancel := context.WithCancelCause(context.Background())
+			defer ccancel(nil)
+			ctx, cancel = cctx, func() { ccancel(errors.New("operator requested shutdown")) }
+		}
+		if sc.MaxProcs > 0 {
+			defer runtime.GOMAXPROCS(runtime.GOMAXPROCS(sc.MaxProcs))
+		}
+		var inFlight int32
+		allIn := make(chan struct{})
 		var mu sync.Mutex
 		attempts := map[int]int{}
 		fbCalls := map[int]int{}
@@ -1262,6 +1396,10 @@ func runBatchScenario(sc btScenario, prop string) string {
 		}
 		var prepItems []Result
 		for i := 0; i < sc.Items; i++ {
+			if sc.ErrItem1 == i+1 {
+				prepItems = append(prepItems, NewErrorResult(&btItemErr{i}))
+				continue
+			}
 			prepItems = append(prepItems, NewResult(i))
 		}
 		switch sc.Payload {
@@ -1291,12 +1429,21 @@ func runBatchScenario(sc btScenario, prop string) string {
 						a = append(a, i)
 					}
 					return NewResult(a), nil
+				case "int64s-with-zeros":
+					var a []int64
+					for i := 0; i < sc.Items; i++ {
+						a = append(a, int64(i)) // element 0 is the zero value
+					}
+					return NewResult(a), nil
 				}
 				return NewResult(0), nil
 			}
 		}
 		b.WithExecFunc(func(c context.Context, item Result) (Result, error) {
 			i, ok := item.AsInt()
+			if ie, isErr := item.Error().(*btItemErr); item.IsError() && isErr {
+				i, ok = ie.idx, true
+			}
 			if !ok {
 				return Result{}, fmt.Errorf("item is not an int: %v", item.Value())
 			}
@@ -1318,12 +1465,27 @@ func runBatchScenario(sc btScenario, prop string) string {
 				arrivals <- parked{i, ch}
 				<-ch
 			}
+			if sc.MaxProcs > 0 && i < sc.Concurrency {
+				// the first `concurrency` executions wait for each other: the limit must be usable whatever GOMAXPROCS is
+				if atomic.AddInt32(&inFlight, 1) == int32(sc.Concurrency) {
+					close(allIn)
+				}
+				select {
+				case <-allIn:
+				case <-time.After(1500 * time.Millisecond):
+					return Result{}, fmt.Errorf("only %d of %d blocking executions got in flight", atomic.LoadInt32(&inFlight), sc.Concurrency)
+				}
+			}
 			if i < len(sc.Fail) && k <= sc.Fail[i] {
 				if sc.SlowMs > 0 {
 					time.Sleep(time.Duration(sc.SlowMs) * time.Millisecond)
 				}
 				if sc.CtxWrapErr {
 					return Result{}, &btWrapErr{fmt.Sprintf("item-%d-attempt-%d", i, k), context.DeadlineExceeded}
+				}
+				if sc.ErrBoth {
+					e := fmt.Errorf("item-%d-attempt-%d", i, k)
+					return NewErrorResult(e), e
 				}
 				return Result{}, fmt.Errorf("item-%d-attempt-%d", i, k)
 			}
@@ -1339,6 +1501,9 @@ func runBatchScenario(sc btScenario, prop string) string {
 			b.BatchNode.CustomNode.execFallbackFunc = func(p any, e error) (any, error) {
 				r, _ := p.(Result)
 				i, _ := r.AsInt()
+				if ie, isErr := r.Error().(*btItemErr); r.IsError() && isErr {
+					i = ie.idx
+				}
 				mu.Lock()
 				fbCalls[i]++
 				mu.Unlock()
@@ -1355,6 +1520,13 @@ func runBatchScenario(sc btScenario, prop string) string {
 		})
 		act, err := Run(ctx, b, NewSharedStore())
 		close(finished)
+		if sc.MaxProcs > 0 && wants(prop, "C08") {
+			for i, r := range gotResults {
+				if r.IsError() && strings.Contains(r.Error().Error(), "blocking executions got in flight") {
+					return fmt.Sprintf("C08: concurrency %d with GOMAXPROCS %d: item %d: %v", sc.Concurrency, sc.MaxProcs, i, r.Error())
+				}
+			}
+		}
 		cancelled := sc.CancelIn >= 0 || sc.CancelPrep
 		if wants(prop, "C06") && sc.CancelPrep && posts != 1 {
 			return fmt.Sprintf("C06: prep succeeded (the context was cancelled while it ran) but post was called %d times; Run returned (%q, %v)", posts, act, err)
@@ -1381,6 +1553,12 @@ func runBatchScenario(sc btScenario, prop string) string {
 				return fmt.Sprintf("C06: post saw %d items and %d results, want %d", len(gotItems), len(gotResults), sc.Items)
 			}
 			for i, it := range gotItems {
+				if sc.ErrItem1 == i+1 {
+					if ie, ok := it.Error().(*btItemErr); !it.IsError() || !ok || ie.idx != i {
+						return fmt.Sprintf("C06: item %d should be the error Result prep produced, is value %v err %v", i, it.Value(), it.Error())
+					}
+					continue
+				}
 				if v, _ := it.AsInt(); v != i {
 					return fmt.Sprintf("C06: item %d is %v: order of prep not preserved", i, it.Value())
 				}
@@ -1482,6 +1660,10 @@ func runBatchScenario(sc btScenario, prop string) string {
 		return ""
 	})
 }
+
+type btItemErr struct{ idx int }
+
+func (e *btItemErr) Error() string { return fmt.Sprintf("upstream failure of item %d", e.idx) }
 
 type btWrapErr struct {
 	msg   string
@@ -1768,7 +1950,8 @@ func valueCatalogue() []any {
 	var nas []any
 	return []any{nas, nil, "s", "", true, false, int(-3), int8(-8), int16(16), int32(-32), int64(1 << 40), uint(7), uint8(200), uint16(60000), uint32(1 << 31), uint64(math.MaxUint64),
 		float32(1.5), float64(-2.75), math.NaN(), math.Inf(1), np, &x, nm, map[string]any{"a": 1}, map[string]int{"a": 1}, ns, []int{1, 2}, []any{1, "a"}, []string{"x"}, []float64{1.5},
-		[]map[string]any{{"k": 1}}, [][]int{{1}}, [2]int{1, 2}, func() {}, make(chan int), vrStructWithSlice{[]int{1}}, struct{ A int }{1}, complex(1, 2), errors.New("e"), []error{nil}}
+		[]map[string]any{{"k": 1}}, [][]int{{1}}, [2]int{1, 2}, func() {}, make(chan int), vrStructWithSlice{[]int{1}}, struct{ A int }{1}, complex(1, 2), errors.New("e"), []error{nil},
+		NewResult(42), NewResult([]int{1, 2, 3}), NewResult("inner"), NewErrorResult(errors.New("inner-error")), Result{}}
 }
 
 func runValue(i int) string {
@@ -1919,6 +2102,9 @@ func bindCases() []bindCase {
 		{"nil value", nil, func() any { return &vrUser{} }},
 		{"partial decode into a pre-populated struct", map[string]any{"id": "not-a-number", "name": "partial"}, func() any { return &vrUser{ID: 42, Name: "pre"} }},
 		{"partial decode into a slice", []any{1, "x", 3}, func() any { return &[]int{7, 8, 9, 10} }},
+		{"value that is itself a Result, same type", NewResult("payload"), func() any { return &Result{} }},
+		{"value that is itself a Result, other type", NewResult(7), func() any { var i int; return &i }},
+		{"zero Result as a value", Result{}, func() any { return &vrUser{ID: 1} }},
 	}
 }
 
@@ -1975,7 +2161,38 @@ func runBind(i int) string {
 
 // ------------------------------------------------------------------ configuration (C19)
 
+// configPresetReuse: one options slice used for several nodes (function options before base options).
+func configPresetReuse(label string) string {
+	return guard(func() string {
+		ran := 0
+		preset := []any{
+			WithExecFuncAny(func(ctx context.Context, p any) (any, error) { ran++; return "exec-ran", nil }),
+			WithPostFuncAny(func(ctx context.Context, s *SharedStore, p, e any) (Action, error) { return "done", nil }),
+			WithMaxRetries(3),
+			WithWait(2 * time.Millisecond),
+		}
+		for k := 1; k <= 3; k++ {
+			n := NewNode(preset...)
+			before := ran
+			act, err := Run(context.Background(), n, NewSharedStore())
+			if err != nil || act != "done" || ran != before+1 || n.GetMaxRetries() != 3 || n.GetWait() != 2*time.Millisecond {
+				return fmt.Sprintf("%s: node #%d built from a reused options slice (exec func, post func, WithMaxRetries(3), WithWait(2ms)): Run = (%q, %v), exec ran %d time(s), retries %d, wait %v", label, k, act, err, ran-before, n.GetMaxRetries(), n.GetWait())
+			}
+		}
+		return ""
+	})
+}
+
 func runConfig(seed int) string {
+	label := os.Getenv("VERIF_REPLAY_PROPERTY")
+	if label == "" {
+		label = "C19"
+	}
+	if seed == 1 {
+		if m := configPresetReuse(label); m != "" {
+			return m
+		}
+	}
 	return guard(func() string {
 		rnd := &vrRand{uint64(seed) * 104729}
 		type setting struct {
@@ -2015,7 +2232,7 @@ func runConfig(seed int) string {
 				got[3] = 1
 			}
 			if got != want {
-				return fmt.Sprintf("C19: %s configured by %v (first %d as options, rest as builder calls) reads %v, want %v", what, seq, split, got, want)
+				return fmt.Sprintf("%s: %s configured by %v (kind 0 retries, 1 wait ms, 2 concurrency, 3 continue; first %d as options, rest as builder calls) reads %v, want %v", label, what, seq, split, got, want)
 			}
 			return ""
 		}
@@ -2045,7 +2262,7 @@ func runConfig(seed int) string {
 		}
 		d := NewBaseNode()
 		if d.GetMaxRetries() != 1 || d.GetWait() != 0 || d.GetBatchConcurrency() != 0 || d.GetBatchErrorHandling() != "continue" {
-			return "C19: documented defaults do not hold for NewBaseNode()"
+			return label + ": documented defaults do not hold for NewBaseNode()"
 		}
 		return ""
 	})
@@ -2070,7 +2287,7 @@ func poolScenarios() []plScenario {
 	for _, w := range []int{2, 3, 8} {
 		out = append(out, plScenario{w, w, true, ""})
 	}
-	out = append(out, plScenario{2, 2, false, "two-waiters"}, plScenario{2, 6, false, "dependent-tasks"}, plScenario{3, 9, false, "dependent-tasks"})
+	out = append(out, plScenario{1, 300, false, "many-tasks"}, plScenario{2, 600, false, "many-tasks"}, plScenario{2, 2, false, "two-waiters"}, plScenario{2, 6, false, "dependent-tasks"}, plScenario{3, 9, false, "dependent-tasks"})
 	return out
 }
 
@@ -2170,12 +2387,52 @@ func poolDependentTasks(c int) string {
 	})
 }
 
+// poolManyTasks: far more tasks than queue slots on a small pool, over several Submit/Wait rounds; every task exactly once.
+func poolManyTasks(workers, tasks int) string {
+	return guard(func() string {
+		p := NewWorkerPool(workers)
+		counts := make([]int32, tasks)
+		done := make(chan struct{})
+		go func() {
+			defer close(done)
+			for round := 0; round < 3; round++ {
+				for i := round; i < tasks; i += 3 {
+					i := i
+					p.Submit(func() { atomic.AddInt32(&counts[i], 1) })
+				}
+				p.Wait()
+			}
+		}()
+		select {
+		case <-done:
+		case <-time.After(5 * time.Second):
+			lost := -1
+			for i := range counts {
+				if atomic.LoadInt32(&counts[i]) == 0 {
+					lost = i
+					break
+				}
+			}
+			return fmt.Sprintf("C12: %d tasks on %d worker(s) in three Submit/Wait rounds: Wait did not return (first task never run: %d)", tasks, workers, lost)
+		}
+		for i := range counts {
+			if n := atomic.LoadInt32(&counts[i]); n != 1 {
+				return fmt.Sprintf("C12: task %d of %d ran %d times on a pool of %d worker(s)", i, tasks, n, workers)
+			}
+		}
+		p.Close()
+		return ""
+	})
+}
+
 func runPool(sc plScenario) string {
 	switch sc.Special {
 	case "two-waiters":
 		return poolTwoWaiters()
 	case "dependent-tasks":
 		return poolDependentTasks(sc.Workers)
+	case "many-tasks":
+		return poolManyTasks(sc.Workers, sc.Tasks)
 	}
 	return guard(func() string {
 		p := NewWorkerPool(sc.Workers)
